@@ -80,8 +80,11 @@ class Subject:
             kwargs = {snake(k): self.build(v) for k, v in tv.props.items()}
             return cls(**kwargs)
         if isinstance(tv, P):
-            if tv.how[0] == "enum" and tv.member and tv.how[2]:
-                return getattr(self.types, tv.how[1])(tv.v)
+            if tv.how[0] == "enum" and tv.how[2]:
+                # closed enumerations are annotated with the Enum class alone: a type-correct
+                # caller passes a member; open ones are Union[Enum, base]: member or raw value
+                if tv.member or not self.model.enum_open(tv.how[1], True):
+                    return getattr(self.types, tv.how[1])(tv.v)
             if tv.how == ("base", "decimal"):
                 return float(tv.v)
             return tv.v
